@@ -50,7 +50,18 @@ def generate(rnd, tier, index=0):
     for op in ops:
         if rnd.random() < 0.1:
             op["restart"] = rnd.choice(["deepcopy", "p4"])
-    return {"cfg": cfg, "regime": regime, "ops": ops}
+    container = "list"
+    if rnd.random() < 0.2:
+        # the caller keeps one pre-allocated array per argument and overwrites it in place for the next call: batches and
+        # query blocks of one fixed size, so that the very same ndarray objects come back with other contents
+        container = "reuse:" + rnd.choice(["ndarray", "ndarray", "ndarray_F", "list", "series_frame"])
+        n0, m0 = rnd.randint(2, 4), rnd.randint(1, 3)
+        for op in ops:
+            if op["op"] in ("fit", "partial_fit") and len(op["rows"]) >= n0:
+                op["rows"] = op["rows"][:n0]
+            elif op["op"] in ("predict", "expect") and op.get("Q"):
+                op["Q"] = op["Q"][:m0]
+    return {"cfg": cfg, "regime": regime, "ops": ops, "container": container}
 
 
 def _replay(P0, ref, cfg, Q, wrong_unobserved=False):
@@ -103,7 +114,7 @@ def execute(case, ctx):
         if kind in ("fit", "partial_fit"):
             rows = P.valid_rows(op["rows"])
             first = not P.fitted
-            r = P.apply(op)
+            r = P.apply(op, container=case.get("container", "list"))
             if r[0] == "exc":
                 ctx.violate("valid-training-raised", step, {"exc": r[1]})
                 return
@@ -128,7 +139,7 @@ def execute(case, ctx):
                 continue
             Q = op["Q"]
             P0 = copy.deepcopy(P.mab)
-            r = P.apply({"op": "expect", "Q": Q})
+            r = P.apply({"op": "expect", "Q": Q}, container=case.get("container", "list"))
             if r[0] != "ok":
                 ctx.violate("query-raised", step, {"res": r})
                 return
